@@ -4,8 +4,14 @@
    functions above them are tied to one configuration-free Spec by the
    correspondence run, which is executed under every configuration
    (runtime AVX2, cpu.avx2=off, cpu.popcnt=off, GOAMD64=v3, GOARCH=386 =
-   the portable file set) and compared case by case. *)
-From Strcase Require Import Base Utf8 Spec Kernels.
+   the portable file set) and compared case by case.
+   At the level of the kernels the statement is a theorem about the code
+   each back end executes: the assembly with its AVX2 path, with its SSE
+   path, the assembly as preprocessed for GOAMD64=v3, the no-POPCNT Go
+   fallback and the portable Go bodies all return the same scalar
+   definitions (C14_kernel_backends_agree below). *)
+From Strcase Require Import Base Utf8 Spec Kernels Impl Impl5 Impl6 Impl7 Instances X86 X86NonASCII X86IndexByte X86Count X86NonASCIIv3 X86IndexBytev3 X86Countv3.
+From StrcaseGen Require Import AsmProg.
 
 Theorem C14_count_variants_equal : forall s c, wf s -> 0 <= c < 256 ->
   count_generic s c = count_simd s c.
@@ -18,3 +24,74 @@ Proof. exact index_byte_generic_eq. Qed.
 
 Theorem C14_index_non_ascii_generic_is_scalar : forall s, wf s -> index_non_ascii_generic s = index_non_ascii s.
 Proof. exact index_non_ascii_generic_eq. Qed.
+
+(* ---- every kernel back end computes the same function ----
+   For each of the three kernels and each entry point: the run of the default assembly with AVX2, the run without
+   AVX2 (SSE path), the run of the GOAMD64=v3 preprocessing, and the Go bodies used without POPCNT / without
+   assembly, all yield one value — at any address, alignment and surrounding memory (the assembly runs may even
+   be placed differently: A1/junk1, A2/junk2, A3/junk3). *)
+Definition placed (A : Z) (s : bytes) : Prop := 4096 <= A /\ A + X86.len s < two63.
+
+Theorem C14_kernel_backends_agree : forall s c A1 A2 A3 junk1 junk2 junk3 slot popcnt r1 r2 r3,
+  wf s -> placed A1 s -> placed A2 s -> placed A3 s ->
+  let c8 := c mod 256 in
+  (* IndexNonASCII *)
+  (exists f1 f2 f3 v,
+     X86.run A1 s junk1 slot true popcnt c prog_index_non_ascii_go122_amd64 f1 entry_index_non_ascii_go122_amd64_IndexNonASCII (init r1) = Done (Some v) /\
+     X86.run A2 s junk2 slot false popcnt c prog_index_non_ascii_go122_amd64 f2 entry_index_non_ascii_go122_amd64_IndexNonASCII (init r2) = Done (Some v) /\
+     X86.run A3 s junk3 slot true popcnt c prog_index_non_ascii_go122_amd64_v3 f3 entry_index_non_ascii_go122_amd64_IndexNonASCII_v3 (init r3) = Done (Some v) /\
+     index_non_ascii_generic s = v) /\
+  (* IndexByteString *)
+  (exists f1 f2 f3 v,
+     X86.run A1 s junk1 slot true popcnt c prog_indexbyte_go122_amd64 f1 entry_indexbyte_go122_amd64_IndexByteString (init r1) = Done (Some v) /\
+     X86.run A2 s junk2 slot false popcnt c prog_indexbyte_go122_amd64 f2 entry_indexbyte_go122_amd64_IndexByteString (init r2) = Done (Some v) /\
+     X86.run A3 s junk3 slot true popcnt c prog_indexbyte_go122_amd64_v3 f3 entry_indexbyte_go122_amd64_IndexByteString_v3 (init r3) = Done (Some v) /\
+     index_byte_generic s c8 = v) /\
+  (* CountString *)
+  (exists f1 f2 f3 v,
+     X86.run A1 s junk1 slot true true c prog_count_go122_amd64 f1 entry_count_go122_amd64_CountString (init r1) = Done (Some v) /\
+     X86.run A2 s junk2 slot false true c prog_count_go122_amd64 f2 entry_count_go122_amd64_CountString (init r2) = Done (Some v) /\
+     X86.run A3 s junk3 slot true popcnt c prog_count_go122_amd64_v3 f3 entry_count_go122_amd64_CountString_v3 (init r3) = Done (Some v) /\
+     count_generic s c8 = v /\ count_simd s c8 = v).
+Proof.
+  intros s c A1 A2 A3 junk1 junk2 junk3 slot popcnt r1 r2 r3 Hw [HA1 HL1] [HA2 HL2] [HA3 HL3] c8.
+  assert (Hc8 : 0 <= c8 < 256) by (apply Z.mod_pos_bound; reflexivity).
+  split; [|split].
+  - destruct (index_non_ascii_str A1 s junk1 slot true popcnt c HA1 HL1 Hw r1) as [f1 H1].
+    destruct (index_non_ascii_str A2 s junk2 slot false popcnt c HA2 HL2 Hw r2) as [f2 H2].
+    destruct (index_non_ascii_str_v3 A3 s junk3 slot true popcnt c HA3 HL3 Hw r3) as [f3 H3].
+    exists f1, f2, f3, (index_non_ascii s). repeat split; try assumption. apply index_non_ascii_generic_eq. exact Hw.
+  - destruct (index_byte_asm_str A1 s junk1 slot true popcnt c HA1 HL1 Hw r1) as [f1 H1].
+    destruct (index_byte_asm_str A2 s junk2 slot false popcnt c HA2 HL2 Hw r2) as [f2 H2].
+    destruct (index_byte_asm_str_v3 A3 s junk3 slot true popcnt c HA3 HL3 Hw r3) as [f3 H3].
+    exists f1, f2, f3, (k_index_byte s c8). repeat split; try assumption. apply index_byte_generic_eq; assumption.
+  - destruct (count_asm_str A1 s junk1 slot true true c HA1 HL1 Hw r1 eq_refl) as [f1 H1].
+    destruct (count_asm_str A2 s junk2 slot false true c HA2 HL2 Hw r2 eq_refl) as [f2 H2].
+    destruct (count_asm_str_v3 A3 s junk3 slot true popcnt c HA3 HL3 Hw r3) as [f3 H3].
+    exists f1, f2, f3, (k_count s c8). repeat split; try assumption; [apply count_generic_eq|apply count_simd_eq]; assumption.
+Qed.
+Print Assumptions C14_kernel_backends_agree.
+
+(* ---- the functions above the kernels: the models of the searches that branch on the back end (NativeIndex, the
+   cut-over heuristic of the byte scans, the brute-force / Rabin-Karp thresholds) return the same result under
+   every setting of these parameters, because each setting refines the same Spec (Instances.v) ---- *)
+Theorem C14_search_models_configuration_free :
+  forall (p : Impl.pkg) (n1 n2 : bool) (cut1 cut2 : Z -> Z) (mb1 mb2 ml1 ml2 prime1 prime2 : Z) (s t : bytes) (r c : Z),
+  wf s -> wf t -> 0 <= c < 256 ->
+  Impl6.Index n1 cut1 FoldFacts121a.fold121 (FoldFacts121a.lower_pkg p) FoldFacts121.fold_map121 FoldFacts121.fold_map_excl121
+              FoldFacts121.upper_lower121 mb1 ml1 prime1 p s t
+  = Impl6.Index n2 cut2 FoldFacts121a.fold121 (FoldFacts121a.lower_pkg p) FoldFacts121.fold_map121 FoldFacts121.fold_map_excl121
+              FoldFacts121.upper_lower121 mb2 ml2 prime2 p s t /\
+  Impl5.IndexRune n1 cut1 FoldFacts121.fold_map121 FoldFacts121.upper_lower121 s r
+  = Impl5.IndexRune n2 cut2 FoldFacts121.fold_map121 FoldFacts121.upper_lower121 s r /\
+  Impl5.IndexByte n1 cut1 s c = Impl5.IndexByte n2 cut2 s c /\
+  Impl7.IndexAny n1 cut1 FoldFacts121.fold_map121 FoldFacts121.upper_lower121 s t
+  = Impl7.IndexAny n2 cut2 FoldFacts121.fold_map121 FoldFacts121.upper_lower121 s t /\
+  Impl7.LastIndexAny n1 cut1 FoldFacts121.fold_map121 FoldFacts121.upper_lower121 s t
+  = Impl7.LastIndexAny n2 cut2 FoldFacts121.fold_map121 FoldFacts121.upper_lower121 s t.
+Proof.
+  intros p n1 n2 cut1 cut2 mb1 mb2 ml1 ml2 prime1 prime2 s t r c Hs Ht Hc.
+  rewrite !index_refines121, !indexrune_refines121, !indexbyte_refines121, !indexany_refines121, !lastindexany_refines121 by assumption.
+  repeat split; reflexivity.
+Qed.
+Print Assumptions C14_search_models_configuration_free.
